@@ -56,6 +56,12 @@ func vfC06Oracle(in *vfGWInst, evFull string, pre, post *vfSnap) {
 	mon := in.mon.(*vfC06Mon)
 	ev, _ := vfSplitChoice(evFull)
 	f := strings.Split(ev, ":")
+	if f[0] == "lpubbatch2" {
+		// one batch with two messages: judged as the two publications it consists of (same snapshots, same wire log)
+		vfC06Oracle(in, "lpubbatch:"+f[1]+":"+f[2], pre, post)
+		vfC06Oracle(in, "lpubbatch:"+f[3]+":"+f[4], pre, post)
+		return
+	}
 	// fanout state is kept for as long as the topic keeps being published to (and members stay eligible)
 	if g.n.gs != nil && post.Ticks > pre.Ticks {
 		ttl := g.n.gs.params.FanoutTTL
@@ -361,6 +367,11 @@ func vfC06Scenarios(thorough bool) []*vfGWScenario {
 	// batch publication (AddToBatch + PublishBatch), joined and through the fanout
 	mk("gs-batch", "gossip", peers, false, connSub(peers, "abcde"),
 		[]string{"join:t", "leave:t", "graft:a:t", "prune:b:t", "score:c:-3", "idw:a:m1", "hb", "lpubbatch:t:p3", "lpubbatch:t:p4:local", "lpubbatch:t:p6", "lpub:t:p1"})
+	// a batch whose messages have recipient sets of different sizes (two topics; u has one interested peer)
+	mk("gs-batch2", "gossip", peers, false, append(connSub(peers, "abcde"), "sub:a:u", "join:t", "join:u"),
+		[]string{"lpubbatch2:t:p3:u:p4", "lpubbatch2:u:p5:t:p6", "graft:a:t", "graft:e:t", "prune:b:t", "hb", "lpubbatch:t:p7"})
+	out[len(out)-1].Cfg.Topics = []string{"t", "u"}
+	out[len(out)-1].DevEvents = []string{"lpubbatch2", "lpubbatch", "join"}
 	mk("gs-floodpub", "gossip", peers, true, connSub(peers, "abcde"),
 		append([]string{"join:t", "leave:t", "score:a:-3", "score:b:-2", "score:c:-3", "score:d:-5", "graft:b:t", "hb"}, pubs...))
 	fpeers := []vfPeerCfg{{Name: "a", Proto: "fs", IP: "10.0.0.1"}, {Name: "b", Proto: "fs", IP: "10.0.0.2"}, {Name: "c", Proto: "fs", IP: "10.0.0.3"}}
